@@ -211,7 +211,7 @@ theorem recycleStep_safe (sk creator : Key) (d : StepDecl) (n : Node) :
   | ok s1 =>
     simp only [h1] at h
     have hp1 : P F s1 := reattach_safe sk creator s s1 hp h1
-    have hmod : P F (s1.modify sk fun n => { n with need := d.need, shell := d.shell, holding := 0 }) := by
+    have hmod : P F (s1.modify sk fun n => { n with need := d.need, shell := d.shell }) := by
       refine hp1.modify _ _ fun m hm hk => ?_
       by_cases hs : sk.kind = .step
       · exact srow_flag rfl (reattach_flagged h1 hs m hm hk)
